@@ -86,5 +86,13 @@ def random_script(rng: random.Random, case: dict, kinds=None,
                                'cmd': 'release_hold_point', 'args': {}})
         elif k == 'reload':
             script.append({'at': at, 'cmd': 'reload_workflow', 'args': {}})
+        elif k == 'stop_flow':
+            # usually after a new flow was started
+            script.append({'at': max(1, at - rng.randint(1, 6)),
+                           'cmd': 'force_trigger_tasks',
+                           'args': {'tasks': some_ids(rng, gt, globs=False),
+                                    'flow': ['new']}})
+            script.append({'at': at, 'cmd': 'stop',
+                           'args': {'flow_num': rng.choice([1, 2, 2, 3])}})
     script.sort(key=lambda a: a['at'])
     return script
